@@ -5,7 +5,7 @@ from harness import tlc
 from harness.drivers import streams as ds
 from harness.props import streams_common as sc
 
-FOCUS = ['vget', 'vget', 'vset', 'tget', 'tset', 'uget', 'uset', 'ubad']
+FOCUS = ['vget', 'vget', 'vset', 'tget', 'tset', 'uget', 'uset', 'ubad', 'measured']
 SHAPING = ['set_flow', 'set_flow', 'set_T', 'set_P', 'set_phase', 'set_phases', 'link_with', 'unlink', 'copy_like', 'reset_thermo',
            'mix_from', 'proxy', 'flow_proxy', 'scale', 'restore', 'save', 'get_eq']
 MC = dict(names=2, ops='c_OpsC12', phasesets='c_PhaseSets12', depth='Depth5', depth_quick='Depth4')
@@ -72,6 +72,15 @@ def view_paths(rng, n):
         ops += [('vset', dict(x=x, p=ph, c=c, view=views[0], v=12, how='indexer'))] + reads(ph)
         ops += [('uset', dict(x=x, p=ph, c=c, units=rng.choice(sorted(ds.World.UNITS)), v=16))] + reads(ph)
         ops += [('tset', dict(x=x, which=rng.choice(['F_mol', 'F_mass', 'F_vol']), q=[1, 2]))] + reads(ph)
+        # last step: a call whose result leaves the integer model (measured read-back)
+        if rng.random() < 0.25:
+            ops.append(('measured', dict(x=x, what='construct_total', k=rng.choice(['s', 'm']), units=rng.choice(['kmol/hr', 'kg/hr', 'lb/hr', 'g/min', 'mol/s']), v=rng.choice([10, 3]))))
+        elif not multi and rng.random() < 0.5:
+            if rng.random() < 0.5:
+                ops += [('construct', dict(x='c', k='s', price=0, cf=0)), ('set_flow', dict(x='c', p='l', c=1, v=12)), ('set_flow', dict(x='c', p='l', c=2, v=4)),
+                        ('measured', dict(x='c', y=x, what='view_copy', view=rng.choice(['mass', 'mass', 'vol']), via=rng.choice(['attr', 'indexer'])))]
+            else:
+                ops.append(('measured', dict(x=x, what='reset_flow', p=rng.choice(['g', 'l']), units=rng.choice(['m3/hr', 'L/min', 'gal/min', 'kg/hr']), v=rng.choice([3, 40]))))
         out.append([dict(op=o, a=a) for o, a in ops])
     return out
 
